@@ -325,6 +325,38 @@ class C18(Prop):
                 ops.append("%s s=%s K=%d ip=%d" % (o, hx(codes), K, (L + 1) & 1))
             ops.append("peek")
             out.append({"name": "sweep-L%d" % L, "ops": ops, "sticky": 1})
+        # degenerate sizes, every routine, separate output and in place
+        for L in range(0, 4):
+            codes = [rng.randrange(3) for _ in range(L)]; txt = bytes(UP[c] for c in codes)
+            ops = ["seed s=%d" % rng.randrange(1, 1 << 32)]
+            for ip in (0, 1):
+                for o in ("cshuffle", "cshuffledp", "creverse", "cmarkov0", "cmarkov1"): ops.append("%s s=%s ip=%d" % (o, hx(txt), ip))
+                for o in ("xshuffle", "xreverse"): ops.append("%s s=%s ip=%d" % (o, hx(codes), ip))
+                for o in ("xshuffledp", "xmarkov0", "xmarkov1"): ops.append("%s s=%s K=3 ip=%d" % (o, hx(codes), ip))
+                for k in range(1, L + 2):
+                    ops += ["ckmers s=%s k=%d ip=%d" % (hx(txt), k, ip), "xkmers s=%s k=%d ip=%d" % (hx(codes), k, ip),
+                            "cwindows s=%s w=%d ip=%d" % (hx(txt), k, ip), "xwindows s=%s w=%d ip=%d" % (hx(codes), k, ip)]
+            ops += ["iid abc=%s p=%s L=%d" % (hx(b"ab"), ",".join(dbits(x) for x in (0.5, 0.5)), L), "xiid p=none K=4 L=%d" % L,
+                    "xfiid p=%s L=%d" % (",".join(fbits(x) for x in (0.25, 0.75)), L), "peek"]
+            out.append({"name": "tiny-L%d" % L, "ops": ops, "sticky": 1})
+        for alen in range(0, 4):
+            for nseq in range(1, 4):
+                ops = ["seed s=%d" % rng.randrange(1, 1 << 32)]
+                trow = [bytes(rng.choice(b"AC-.") for _ in range(alen)) for _ in range(nseq)]
+                drow = [bytes(rng.choice([0, 1, 4, 4, 16, 17]) for _ in range(alen)) for _ in range(nseq)]
+                for ip in (0, 1):
+                    ops.append("msashuffle dig=0 abc=dna rows=%s ip=%d" % (",".join(hx(r) for r in trow), ip))
+                    ops.append("msashuffle dig=1 abc=dna rows=%s ip=%d" % (",".join(hx(r) for r in drow), ip))
+                    ops.append("vshuffle abc=dna rows=%s ip=%d" % (",".join(hx(r) for r in drow), ip))
+                    if nseq >= 2 and alen >= 1:
+                        ops.append("cqrna abc=dna x=%s y=%s ip=%d" % (hx(trow[0]), hx(trow[1]), ip))
+                        ops.append("xqrna abc=dna x=%s y=%s ip=%d" % (hx(drow[0]), hx(drow[1]), ip))
+                ops.append("bootstrap dig=0 abc=dna rows=%s ip=0" % ",".join(hx(r) for r in trow))
+                ops.append("bootstrap dig=1 abc=dna rows=%s ip=0" % ",".join(hx(r) for r in drow))
+                ops.append("permute dig=0 abc=dna rows=%s names=%s wgt=%s sqlen=%s acc=none desc=none ss=none sa=none pp=none gs=none gr=none" % (
+                    ",".join(hx(r) for r in trow), ",".join(hx(b"n%d" % i) for i in range(nseq)), ",".join(str(i + 1) for i in range(nseq)), ",".join(str(10 + i) for i in range(nseq))))
+                ops.append("peek")
+                out.append({"name": "tiny-msa-%dx%d" % (nseq, alen), "ops": ops, "sticky": 1})
         # the upper limit of the quantifier
         for L in ((5000,) if ctx.tier == "quick" else (4999, 5000)):
             K = rng.choice([2, 4, 20, 26])
